@@ -720,6 +720,67 @@ def r01_9(ctx, rep):
            "class (`model A end A; garbage`, a lone `)`) is ignored, a tree is returned and cached" % entry_rule)
 
 
+@SPEC.rule(
+    "R01.10",
+    "each table's verdict is its own: in _check_database_structure the test that decides whether table T is (re)created reads "
+    "only variables whose reaching definitions all lie after T's own existence query (SELECT ... FROM sqlite_master ... name='T') — "
+    "a verdict carried over from the previous table's block would leave a missing T uncreated whenever that table was correct",
+)
+def r01_10(ctx, rep):
+    from ..cfg import CFG
+    R = "R01.10"
+    fn = ctx.func(PARSER, "_check_database_structure", R)
+    site = PARSER + ":_check_database_structure"
+    cfg = CFG(fn, R)
+    import re as _re
+
+    def sql_of(x):
+        if x.kind != "stmt" or isinstance(x.ast, (ast.FunctionDef, ast.ClassDef)):
+            return None
+        for c in calls(x.ast):
+            if method_name(c) == "execute" and c.args and const_str(c.args[0]) is not None:
+                return " ".join(const_str(c.args[0]).split())
+        return None
+
+    queries, creates = {}, {}
+    for x in cfg.nodes:
+        q = sql_of(x)
+        if not q:
+            continue
+        m = _re.search(r"FROM sqlite_master .*name\s*=\s*'(\w+)'", q, _re.I)
+        if m:
+            queries.setdefault(m.group(1), x)
+        m = _re.match(r"CREATE TABLE (?:IF NOT EXISTS )?(\w+)", q, _re.I)
+        if m:
+            creates.setdefault(m.group(1), x)
+    if len(queries) < 2 or len(creates) < 2:
+        raise MechanismMissing(R, "existence queries / CREATE TABLE statements of the two cache tables not found")
+    dom = cfg.dominators()
+    for t in sorted(creates):
+        if t not in queries:
+            rep.ob(R, site, "table %s: existence is queried" % t, False, "table %s is created but its existence is never looked up in sqlite_master" % t)
+            continue
+        qn, cn = queries[t], creates[t]
+        guards = [g for g in cfg.nodes if g.kind == "assume" and g.id in dom[cn.id] and qn.id in dom[g.id]]
+        names = sorted({n.id for g in guards for n in ast.walk(g.ast) if isinstance(n, ast.Name)})
+        if not guards or not names:
+            rep.ob(R, site, "table %s: creation decided by its own verdict" % t, False,
+                   "CREATE TABLE %s is not guarded by a test evaluated after the existence query of %s" % (t, t))
+            continue
+        stale = []
+        for g in guards:
+            for v in {n.id for n in ast.walk(g.ast) if isinstance(n, ast.Name)}:
+                for d in reaching_defs(cfg, v).get(g.id, ()):
+                    if d == cfg.entry:
+                        continue
+                    if qn.id not in dom[d]:
+                        stale.append("%s (bound by `%s`)" % (v, cfg.nodes[d].text()[:50]))
+        rep.ob(R, site, "table %s: creation decided by its own verdict" % t, not stale,
+               "the test that guards CREATE TABLE %s reads %s, whose value can still come from before the existence query of %s: when that "
+               "earlier value says 'correct', a missing %s table is never created and every later parse() fails with 'no such table'"
+               % (t, sorted(set(stale)), t, t))
+
+
 # ---------------------------------------------------------------------------
 # seeded variants (thorough tier)
 
